@@ -491,7 +491,7 @@ theorem pass_req (s : Sys) (t i d : IId) (c : Cond) (pc : Pc) (rest) (deps : Lis
     · simp only [setPc_gate, hg]; rw [← e1.2]; exact List.mem_cons_self ..
 
 theorem doSkip_other (s : Sys) (t i) (ht : t < s.threads.length) : ((doSkip s t i).thr t).pc.isTail = true := by
-  unfold doSkip; rw [pc_setPc _ _ _ (by simpa using ht)]; rfl
+  unfold doSkip; rw [pc_setPc _ _ _ (by simpa [addDone] using ht)]; rfl
 
 /-! ### one step of a process thread keeps the demand of its label -/
 
